@@ -387,11 +387,20 @@ impl<'a, R: Clone> AsyncGlobalCache<'a, R> {
 
             // Expired - remove and continue
             drop(entry_ref);
-            self.cache.remove(key);
 
-            // Also remove from order queue to prevent orphaned keys
+            // Remove the entry and its queue position under the order lock, and only if the
+            // entry is still the expired one: an insert (which holds the order lock across its
+            // queue and store updates) may have replaced it in the meantime, and its queue
+            // position must not be dropped
+            let ttl = self.ttl;
             let mut order = self.order.lock();
-            order.retain(|k| k != key);
+            let removed = self
+                .cache
+                .remove_if(key, |_, e| ttl.map_or(false, |t| now.saturating_sub(e.1) >= t))
+                .is_some();
+            if removed {
+                order.retain(|k| k != key);
+            }
         }
 
         // Record cache miss
